@@ -771,12 +771,12 @@ func ruleR133(c *Ctx) {
 		bad := ""
 		nIter := 0
 		ast.Inspect(fd.Body, func(x ast.Node) bool {
-			call, ok := x.(*ast.CallExpr)
-			if !ok {
+			// called or used as a method value (for k, v := range m.orig.Iter)
+			sel, ok := x.(*ast.SelectorExpr)
+			if !ok || (sel.Sel.Name != "Iter" && sel.Sel.Name != "Get") {
 				return true
 			}
-			sel, ok := ast.Unparen(call.Fun).(*ast.SelectorExpr)
-			if !ok || (sel.Sel.Name != "Iter" && sel.Sel.Name != "Get") {
+			if s2, isMethod := info.Selections[sel]; !isMethod || s2.Kind() == types.FieldVal {
 				return true
 			}
 			if id, ok := ast.Unparen(sel.X).(*ast.Ident); ok && info.ObjectOf(id) == recv {
